@@ -240,7 +240,14 @@ def build(case):
         coords = AffineCoordinates(affine_matrix(case['pattern'], case['palette']))
         pattern = case['pattern']
     via = case.get('via')
-    if via is None:
+    if via == 'restored':
+        # components re-ordered (coordinate attributes out of axis order), then saved and restored
+        from glue.core.state import GlueSerializer, GlueUnSerializer
+        d = Data(x=np.arange(int(np.prod(shape)), dtype=float).reshape(shape), coords=coords, label='d')
+        d.reorder_components(list(d.components)[::-1])
+        d = GlueUnSerializer.loads(GlueSerializer(d).dumps()).object('__main__')
+        coords = d.coords
+    elif via is None:
         d = Data(x=np.arange(int(np.prod(shape)), dtype=float).reshape(shape), coords=coords, label='d')
     else:
         # the coordinate object is ASSIGNED to a dataset that already has components and (other) coordinates
@@ -467,7 +474,7 @@ def all_cases(tier):
     for n in (3, 2, 1):
         for p in patterns(n):
             if n < 3 or sum(map(sum, p)) <= (9 if tier == 'thorough' else 4):
-                for via in ('identity', 'none', 'other'):
+                for via in ('identity', 'none', 'other') + (('restored',) if n > 1 else ()):
                     cases.append(dict(kind='affine', pattern=p, palette=base, shape=list(SHAPES[n]), via=via))
     return cases
 
